@@ -27,7 +27,8 @@ Definition str_is_one_of (c : list string) (v : pv) : bool :=
    str: a string; url: a string starting with http:// or https://; int: an
    integer number (true/false are not numbers); bool: true/false; list[str]:
    an array of strings; jwk: an object; none: nothing is acceptable;
-   choices: one of the listed strings, or an array of them *)
+   choices: one of the listed strings, or an array of them (choice-str: only
+   the former, choice-list: only the latter) *)
 Definition json_type_ok (k : vkind) (v : pv) : bool :=
   match k with
   | VStr => jtag_eqb (jtag_of v) JString
@@ -47,6 +48,11 @@ Definition json_type_ok (k : vkind) (v : pv) : bool :=
                   | PList l => forallb (str_is_one_of c) l
                   | _ => str_is_one_of c v
                   end
+  | VChoiceStr c => str_is_one_of c v            (* exactly one of the listed strings *)
+  | VChoiceList c => match v with                (* an array of listed strings *)
+                     | PList l => forallb (str_is_one_of c) l
+                     | _ => false
+                     end
   | VUnknown _ => false
   end.
 
